@@ -121,6 +121,14 @@ def static_str(fx, b, op, _depth=0):
             if it is not None and it.get("output", "").replace(" ", "") in ("&'staticstr",):
                 why.append("fn %s -> &'static str" % T.short(tgt, 2))
                 continue
+            if c.is_fn(*ITER_PLUMBING):
+                # the name comes out of an iteration (a table of names walked in a loop): static if every string that can flow into
+                # the iterated value is
+                ok, w = _deep_static(fx, b, l)
+                if ok:
+                    why.append(w)
+                    continue
+                return False, w
             return False, "result of %s" % T.short(tgt, 2)
         if o["k"] == "arg" and _depth < 2:
             # a parameter of a private helper: static if declared `&'static str`, or if every call of the helper passes a static string
@@ -129,9 +137,73 @@ def static_str(fx, b, op, _depth=0):
                 why.append(w)
                 continue
             return False, w
+        if o["k"] == "place" and o.get("pl") is not None and _depth < 2:
+            # a projection of a compound value (the element an iterator handed out, a tuple of a table): look at everything that value
+            # can be made of
+            ok, w = _deep_static(fx, b, o["pl"]["l"])
+            if ok:
+                why.append(w)
+                continue
+            return False, w
         if o["k"] in ("place", "arg", "agg", "resume", "other", "binop"):
             return False, "derived from %s" % o["k"]
     return True, ", ".join(sorted(set(why)))
+
+
+ITER_PLUMBING = ("Iterator::next", "IntoIterator::into_iter", "Iterator::filter", "Iterator::enumerate", "Iterator::rev", "Iterator::skip", "Iterator::take",
+                 "Iterator::chain", "Iterator::copied", "Iterator::cloned", "Iterator::zip", "Iterator::by_ref", "slice::<impl [T]>::iter", "Iterator::peekable",
+                 "Iterator::step_by", "Iterator::fuse")
+
+
+def _deep_static(fx, b, start):
+    """Every string-typed leaf the value of `start` can derive from — through iterator plumbing, tuples, arrays, references, Option
+    payloads — is a literal, a const or the result of a fn returning &'static str.  Anything else (a parameter, a field of self, the
+    result of another call) makes the name dynamic."""
+    def carries_str(ty):
+        return "str" in ty or "String" in ty or "Cow<" in ty
+    seen, work, n_leaf = set(), [start], 0
+    while work:
+        l = work.pop()
+        if l is None or l in seen:
+            continue
+        seen.add(l)
+        ty = b.local_ty(l)
+        if ty.startswith("{closure") or not carries_str(ty):
+            continue
+        ds = b.defs().get(l, [])
+        if not ds:
+            return False, "derived from a parameter (%s)" % ty[:40]
+        for (bi, si, kind, payload) in ds:
+            if kind == "assign":
+                ops, places = b.rv_operands(payload["rv"])
+                for o in ops:
+                    if o.get("c") == "const":
+                        n_leaf += 1
+                    else:
+                        work.append(F.op_base(o))
+                for pl in places:
+                    work.append(pl["l"])
+            elif kind == "call":
+                c = [x for x in b.calls() if x.bb == bi][0]
+                it = None
+                for cand in (c.rdef, c.defn):
+                    if cand and cand in fx.items:
+                        for i in fx.items[cand]:
+                            if i["kind"] in ("Fn", "AssocFn"):
+                                it = i
+                if it is not None and it.get("output", "").replace(" ", "") == "&'staticstr":
+                    n_leaf += 1
+                    continue
+                if c.is_fn(*ITER_PLUMBING) or c.is_fn("Deref::deref", "AsRef::as_ref", "Borrow::borrow", "Try::branch"):
+                    for a in c.args:
+                        if a.get("c") == "const":
+                            continue
+                        work.append(F.op_base(a))
+                    continue
+                return False, "result of %s" % T.short(c.rdef or c.defn or c.name(), 2)
+            else:
+                return False, "derived from %s" % kind
+    return (n_leaf > 0), "a table of %d static strings walked by an iterator" % n_leaf
 
 
 def _static_param(fx, b, idx, depth):
